@@ -800,11 +800,5 @@ package framework
 // registration); govc checks mechanically, per unit, that no storing function is reachable, and then keeps these cells of
 // pre-existing objects across `modifies *` havocs
 //@ stable Statement.ssn
-//@ stable Statement.sessionID
 //@ stable Session.ClusterInfo
 //@ stable Session.Cache
-//@ stable Session.eventHandlers
-//@ stable Session.ReclaimScenarioValidatorFns
-//@ stable Session.PreemptScenarioValidatorFns
-//@ stable Session.ReclaimVictimFilterFns
-//@ stable Session.PreemptVictimFilterFns
